@@ -156,7 +156,23 @@ let () =
       Hashtbl.reset seen;
       (try
         let (seq_toks, log_toks) = split_log (split_ws impl_line) in
-        let msgs = List.map parse_msg (split_msgs seq_toks) in
+        (* "file=..." tokens (a deferred body received into a file on a copy of the unread bytes) are split off *)
+        let is_file t = String.length t > 5 && String.sub t 0 5 = "file=" in
+        let raw_msgs = split_msgs seq_toks in
+        let file_toks = List.map (fun ts -> List.find_opt is_file ts) raw_msgs in
+        let msgs = List.map (fun ts -> parse_msg (List.filter (fun t -> not (is_file t)) ts)) raw_msgs in
+        let file_spec (len : n) (left : n list) : string =
+          (match body_to_file_known len left with
+           | None -> "file=trunc"
+           | Some b -> let ints = List.map int_of_n b in
+             Printf.sprintf "file=ok:%s:%d:h%016Lx" (decimal_of_n len) (List.length ints) (fnv64_ints ints)) in
+        let file_wanted (o : head_in msg_result * n list) : string option =
+          (match o with
+           | (MReq (_, r, BrDeferred), left) when not (r.rq_chunked || r.rq_gzip) ->
+             (match r.rq_body with
+              | PendingKnown len when String.length (decimal_of_n len) <= 6 && int_of_n len <= 400000 -> Some (file_spec len left)
+              | _ -> None)
+           | _ -> None) in
         let heads = List.map fst msgs in
         (* the model: same heads, same stream; the split of the unread bytes between buffer and
            socket and the body read schedule are taken from the case's schedule (any would do:
@@ -168,7 +184,8 @@ let () =
         let nmodel = List.length model in
         let model_line =
           String.concat " ; " (List.mapi (fun i (h : head_in option) ->
-              if i < nmodel then pr_head h ^ " " ^ pr_obs (List.nth model i)
+              if i < nmodel then pr_head h ^ " " ^ pr_obs (List.nth model i) ^
+                                 (match file_wanted (List.nth model i) with Some f -> " " ^ f | None -> "")
               else pr_head h ^ " R not-reached") heads) in
         (* the oracle on the implementation's observations, chained on the implementation's own left-overs *)
         let rec go i data msgs = match msgs with
@@ -180,6 +197,11 @@ let () =
              | None -> "oracle=fail@no-head-boundary"
              | Some rest ->
                if not (oracle_c03_msg small_body_len h rest o) then "oracle=fail@" ^ label h o
+               else if (match file_wanted o, List.nth file_toks i with
+                   | Some want, Some got -> want <> got
+                   | Some _, None -> true
+                   | None, _ -> false)
+               then "oracle=fail@file-body-is-not-exactly-the-next-N-bytes"
                else if not (match fst o with MReq (_, r, _) -> pure_ok (snd h) r | _ -> true)
                then "oracle=fail@derived-fields-not-a-function-of-the-header-fields"
                else if rest_msgs = [] then "oracle=ok"     (* the harness stops after 9 messages or at a stop condition *)
